@@ -46,6 +46,28 @@ type state struct {
 	mem     map[string]memEntry
 	content map[string]*Val
 	allocT  map[int]types.Type // alloc id -> element type
+	up      *evChain           // events of the callers' frames up to the calls that led here (an inlined callee starts with no events of its own)
+}
+
+type evChain struct {
+	evs []*Event
+	up  *evChain
+}
+
+// allEvents: the events of this path so far, the callers' included, in order.
+func (s *state) allEvents() []*Event {
+	if s.up == nil {
+		return s.events
+	}
+	var chain []*evChain
+	for c := s.up; c != nil; c = c.up {
+		chain = append(chain, c)
+	}
+	var out []*Event
+	for i := len(chain) - 1; i >= 0; i-- {
+		out = append(out, chain[i].evs...)
+	}
+	return append(out, s.events...)
 }
 
 func newState() *state {
@@ -60,6 +82,7 @@ func (s *state) clone() *state {
 		mem:     make(map[string]memEntry, len(s.mem)),
 		content: make(map[string]*Val, len(s.content)),
 		allocT:  make(map[int]types.Type, len(s.allocT)),
+		up:      s.up,
 	}
 	if len(s.exhausted) > 0 {
 		n.exhausted = make(map[string]bool, len(s.exhausted))
@@ -902,6 +925,138 @@ func (e *Engine) evalCond(st *state, c *Val) (bool, bool) {
 		if t, ok := e.evalCond(st, c.Args[0]); ok {
 			return !t, true
 		}
+	}
+	if t, ok := lenDiffCond(st, c); ok {
+		return t, true
+	}
+	return false, false
+}
+
+// lenDiffCond decides a comparison that involves the difference of two Len() observations of one buffer when
+// everything between them on this path appended a known number of bytes (`if buf.Len()-before != 16 { internal error }`
+// after writing a 16-byte field): the difference is that number.
+func lenDiffCond(st *state, c *Val) (bool, bool) {
+	if c.Op != "binop" || len(c.Args) != 2 {
+		return false, false
+	}
+	switch c.Name {
+	case "==", "!=", "<", "<=", ">", ">=":
+	default:
+		return false, false
+	}
+	d := affOf(c.Args[0]).Add(affOf(c.Args[1]), -1)
+	if d.Top {
+		return false, false
+	}
+	var pos, neg *Val
+	for k, co := range d.Term {
+		sym := d.Sym[k]
+		if sym == nil || sym.Op != "buflen" {
+			continue
+		}
+		switch {
+		case co == 1 && pos == nil:
+			pos = sym
+		case co == -1 && neg == nil:
+			neg = sym
+		default:
+			return false, false
+		}
+	}
+	if pos == nil || neg == nil || len(pos.Args) != 1 || len(neg.Args) != 1 || pos.Args[0].Key() != neg.Args[0].Key() {
+		return false, false
+	}
+	all := st.allEvents()
+	ia, ib := -1, -1
+	for i, ev := range all {
+		if ev.Kind == EvLen && ev.ID == neg.ID {
+			ia = i
+		}
+		if ev.Kind == EvLen && ev.ID == pos.ID {
+			ib = i
+		}
+	}
+	if ia < 0 || ib < 0 || ia == ib {
+		return false, false
+	}
+	sign := int64(1) // Len@pos - Len@neg = sign * (change of Len() from the earlier to the later observation)
+	if ia > ib {
+		ia, ib, sign = ib, ia, -1
+	}
+	var written func(evs []*Event) (*Affine, bool)
+	written = func(evs []*Event) (*Affine, bool) {
+		w := affConst(0)
+		for _, ev := range evs {
+			switch ev.Kind {
+			case EvWriteInt, EvWriteBytes:
+				if ev.Buf == nil || stripIface(ev.Buf).Key() != stripIface(pos.Args[0]).Key() || ev.Size == nil {
+					return nil, false
+				}
+				a := affOf(ev.Size)
+				if a.Top {
+					return nil, false
+				}
+				w = w.Add(a, 1)
+			case EvReadInt, EvReadBytes:
+				// a read that succeeded took exactly its size out of the unread bytes
+				if ev.Failed || ev.Short || ev.Buf == nil || stripIface(ev.Buf).Key() != stripIface(pos.Args[0]).Key() || ev.Size == nil {
+					return nil, false
+				}
+				a := affOf(ev.Size)
+				if a.Top {
+					return nil, false
+				}
+				w = w.Add(a, -1)
+			case EvLen, EvBytes, EvPanicSite, EvAlloc, EvStore, EvLock, EvMapRead, EvLoadGlobal, EvLookup, EvPatch:
+			case EvBufOther:
+				if !observerMethods[ev.Mode] {
+					return nil, false
+				}
+			case EvAlt:
+				var first *Affine
+				for _, arm := range ev.Iter {
+					a, ok := written(arm.Events)
+					if !ok {
+						return nil, false
+					}
+					if first == nil {
+						first = a
+					} else if !first.Equal(a) {
+						return nil, false
+					}
+				}
+				if first != nil {
+					w = w.Add(first, 1)
+				}
+			default:
+				return nil, false
+			}
+		}
+		return w, true
+	}
+	w, ok := written(all[ia+1 : ib])
+	if !ok {
+		return false, false
+	}
+	// d = (Len@b - Len@a) + rest  with  Len@b - Len@a = w
+	rest := d.Add(affOf(pos), -1).Add(affOf(neg), 1).Add(w, sign)
+	k, isC := rest.IsConst()
+	if !isC {
+		return false, false
+	}
+	switch c.Name {
+	case "==":
+		return k == 0, true
+	case "!=":
+		return k != 0, true
+	case "<":
+		return k < 0, true
+	case "<=":
+		return k <= 0, true
+	case ">":
+		return k > 0, true
+	case ">=":
+		return k >= 0, true
 	}
 	return false, false
 }
